@@ -298,7 +298,7 @@ def _body_open(text, i):
             k = j - 1
             while k >= 0 and text[k].isspace():
                 k -= 1
-            if not (text[k].isalnum() or text[k] == "_") or re.search(r"\b(const|noexcept|override|final)$", text[i:k + 1]) \
+            if not (text[k].isalnum() or text[k] == "_") or re.search(r"\b(const|noexcept|override|final)$", text[max(0, k - 12):k + 1]) \
                     or re.search(r"->\s*[\w:<>,\s\*&]+$", text[i:k + 1]):
                 return j
             j = match_close(text, j, "{", "}")
@@ -387,6 +387,11 @@ def extract_function(fn):
         log.append("pre-rule /%s/ -> '%s' x%d" % (pat, rep, k))
     body = apply_global_rules(body, log, fn.get("members"), fn.get("propagate"))
     for (pat, rep, cnt) in fn.get("rules", []):
+        if callable(pat):
+            body, k = pat(body)
+            _check_count(fn, rep, k, cnt)
+            log.append("structural rule %s x%d" % (rep, k))
+            continue
         body, k = re.subn(pat, rep, body)
         _check_count(fn, pat, k, cnt)
         log.append("rule /%s/ -> '%s' x%d" % (pat, rep, k))
